@@ -1801,10 +1801,17 @@ size_t rtosc_scan_arg_val(const char* src,
                 src+=rd;
                 float secfracsf;
 
+                // only take over hour and minute if both are present
+                // (a following integer must not be mistaken for the hour)
+                int hour, min;
                 rd = 0;
-                sscanf(src, " %2d:%2d%n", &m_tm.tm_hour, &m_tm.tm_min, &rd);
+                sscanf(src, " %2d:%2d%n", &hour, &min, &rd);
                 if(rd)
-                 src+=rd;
+                {
+                    m_tm.tm_hour = hour;
+                    m_tm.tm_min = min;
+                    src+=rd;
+                }
 
                 rd = 0;
                 sscanf(src, ":%2d%n", &m_tm.tm_sec, &rd);
